@@ -223,7 +223,48 @@ def run(ctx, tier):
                             loc=eb.loc(bi)))
     if not r_enf.instances:
         r_enf.inst('no enforce_bounds uses an early-return bounds test', ok=True, nontrivial=False)
-    return [r_lost, r_same, r_range, r_enf]
+    r_canon = _canon(ctx, prim)
+    return [r_lost, r_same, r_range, r_enf, r_canon]
+
+
+def _canon(ctx, prim):
+    """assume-guarantee by interval abstract interpretation: (guarantee) the interval-space constructor stores bounds
+    inside [-pi, pi]; (assume) with bounds in [-pi, pi], enforce_bounds leaves an angle in [-pi, pi], never NaN"""
+    import math
+    from ..interval import Interp, Iv
+    r = RuleResult('C11.canon', 'enforcing bounds on an angle leaves a canonical value in [-pi, pi] (assume-guarantee with the constructor)')
+    lo, hi = -math.pi * (1 + 1e-15), math.pi * (1 + 1e-15)
+    n = 0
+    for adt, bty in prim:
+        if bty != '(f64, f64)':
+            continue
+        n += 1
+        ctor = [b for b in ctx.lib_bodies() if b.j.get('impl_adt') == adt and b.impl_trait is None and b.name == 'new']
+        ms = space_methods(ctx, adt)
+        eb = ms.get('enforce_bounds')
+        if not ctor or eb is None:
+            r.violations.append(Violation('C11', 'C11.canon', adt, 'shape', 'constructor or enforce_bounds not found (unrecognised shape)'))
+            continue
+        it = Interp(ctx, ctx.core)
+        res = it.analyze(ctor[0])
+        stored = {k: v for k, v in res.items() if k[0] == 'ret' and 'bounds' in k}
+        g_ok = len(stored) >= 2 and all(v.within(lo, hi) for v in stored.values())
+        r.inst('%s stores bounds %s within [-pi, pi]' % (ctor[0].path, {'.'.join(k[-2:]): str(v) for k, v in stored.items()}), ok=g_ok, site=ctor[0].loc(0))
+        if not g_ok:
+            r.violations.append(Violation('C11', 'C11.canon', ctor[0].path, 'bounds-range',
+                                          'the stored angular bounds are not confined to [-pi, pi]: %s' % {'.'.join(k[-2:]): str(v) for k, v in stored.items()},
+                                          loc=ctor[0].loc(0)))
+        it2 = Interp(ctx, ctx.core, field_inputs={('bounds', '0'): Iv(-math.pi, math.pi), ('bounds', '1'): Iv(-math.pi, math.pi)})
+        out = {k: v for k, v in it2.analyze(eb).items() if k[0] == 'out'}
+        a_ok = bool(out) and all(v.within(lo, hi) for v in out.values())
+        r.inst('%s leaves %s' % (eb.path, {'.'.join(map(str, k[2:])): str(v) for k, v in out.items()}), ok=a_ok, site=eb.loc(0))
+        if not a_ok:
+            r.violations.append(Violation('C11', 'C11.canon', eb.path, 'angle-range',
+                                          'after enforce_bounds the angle is not confined to [-pi, pi] / may be NaN: %s' % {'.'.join(map(str, k[2:])): str(v) for k, v in out.items()},
+                                          loc=eb.loc(0)))
+    if n < 1:
+        r.violations.append(Violation('C11', 'C11.canon', 'oxmpl', 'floor', 'no interval-bounded (angular) space found'))
+    return r
 
 
 def _range_sites(ctx, b):
